@@ -109,6 +109,12 @@ def _warm():
         B.add_constructor("!app-c2", lambda loader, node: object())
         B.add_multi_constructor("!app-m2/", lambda loader, suffix, node: object())
         B.add_implicit_resolver("!app-c2", __import__("re").compile("^app$"), ["a"])
+        # the module-level helpers with an explicit Loader= argument register on that class only
+        C = type("AppLoaderC", (Base,), {})
+        yaml.add_constructor("!app-c3", lambda loader, node: object(), Loader=C)
+        yaml.add_multi_constructor("!app-m3/", lambda loader, suffix, node: object(), Loader=C)
+        yaml.add_implicit_resolver("!app-c3", __import__("re").compile("^app3$"), ["a"], Loader=C, Dumper=type("AppDumperC", (yaml.SafeDumper,), {}))
+        yaml.add_path_resolver("!app-c3", ["app-key"], Loader=C, Dumper=type("AppDumperD", (yaml.SafeDumper,), {}))
     _warm.done = True
 
 
